@@ -398,6 +398,16 @@ func (o *Opts) CommandStep() *ordered.MapSA {
 	if r.Intn(5) == 0 {
 		m.Set("cache", o.Cache())
 	}
+	if r.Intn(25) == 0 {
+		sig := ordered.MapFromItems(ordered.TupleSA{Key: "algorithm", Value: "EdDSA"},
+			ordered.TupleSA{Key: "signed_fields", Value: []any{"command", "env", "matrix", "plugins", "repository_url"}},
+			ordered.TupleSA{Key: "value", Value: "eyJhbGciOiJFZERTQSJ9..c2ln"})
+		if r.Intn(3) == 0 {
+			sig.Set(o.Key(r), o.Scalar()) // an unknown key inside the signature (finding F9)
+			o.hist("signature.unknown-key")
+		}
+		m.Set("signature", sig)
+	}
 	o.addExtras(m, r.Intn(4))
 	return shuffleKeys(r, m)
 }
